@@ -733,14 +733,27 @@ def _k4_cond_recompute(run, prog, cm, rule="K4", class_pred=None):
         for f in list(C.methods.values()):
             if f.kind != "method" or f.name == "__init__":
                 continue
-            for node in ast.walk(f.node):
-                if not isinstance(node, ast.If):
-                    continue
+            # (if-node, statements of its else side): for a guard clause
+            # `if <test>: return` the else side is the rest of the block
+            ifs = []
+            for blk_owner in ast.walk(f.node):
+                for fld in ("body", "orelse", "finalbody"):
+                    blk = getattr(blk_owner, fld, None)
+                    if not isinstance(blk, list):
+                        continue
+                    for i_, st_ in enumerate(blk):
+                        if not isinstance(st_, ast.If):
+                            continue
+                        els = st_.orelse
+                        if not els and st_.body and isinstance(st_.body[-1], ast.Return):
+                            els = blk[i_ + 1:]
+                        ifs.append((st_, els))
+            for node, else_stmts in ifs:
                 b = _Builder(prog, f, C, {}, True)
                 try:
                     ttest = b.expr(node.test)
                     tthen = b.block(node.body)
-                    telse = b.block(node.orelse)
+                    telse = b.block(else_stmts)
                 except AnalysisError:
                     continue
 
@@ -777,7 +790,11 @@ def _k4_cond_recompute(run, prog, cm, rule="K4", class_pred=None):
                             hit = sorted(src & set(wr))
                             if not hit:
                                 continue
-                            ok = bool(guard & set(wr))
+                            # the writer must make the *test* fail next time: it
+                            # has to touch a cell the test reads (rewriting some of
+                            # the recomputed cells leaves the test true and the rest
+                            # of them stale)
+                            ok = bool(G & set(wr))
                             inst = f"{D.name}:{f.qualname}:{a.qualname}"
                             run.oblige(rule, "recompute:" + inst, ok, sample={
                                 "where": f"{f.module.relpath}:{node.lineno}",
